@@ -31,6 +31,7 @@ import (
 //	NVF  NEW_VIEW with votes attributed to honest members under garbage signatures (P4 variant)
 //	NVW  NEW_VIEW ignoring the lock (fresh block although a vote carries a proof)  (P4 variant)
 //	NVH  NEW_VIEW whose embedded PREPREPARE hash differs from the proven/attached block (P4 variant)
+//	NVB  NEW_VIEW valid in every signed part whose attached (unsigned) block body is another block (P4 variant)
 //	OUT  outsider-signed PREPARE / COMMIT / VIEW_CHANGE                            (P7)
 //	XT   cross-type replay: an honest PREPARE header+signature wrapped as COMMIT    (P6)
 //	NVE  NEW_VIEW "locked" on a proof for the EMPTY hash assembled from proof-less VIEW_CHANGE signatures of an
@@ -64,7 +65,7 @@ func (a *Adv) soupDependent() bool {
 	if a.e.Cfg.Eager {
 		return true
 	}
-	for _, p := range []string{"XT", "VC", "VCT", "NV", "NVW", "NVH", "NVN", "NVM", "NVE"} {
+	for _, p := range []string{"XT", "VC", "VCT", "NV", "NVW", "NVH", "NVN", "NVM", "NVE", "NVB"} {
 		if a.on(p) {
 			return true
 		}
@@ -356,7 +357,7 @@ func (a *Adv) build(soup []Sent, t *LState) []int {
 		}
 	}
 	var proofs []proofSrc
-	if a.on("VC") || a.on("VCT") || a.on("NV") || a.on("NVW") || a.on("NVH") || a.on("NVN") || a.on("NVM") {
+	if a.on("VC") || a.on("VCT") || a.on("NV") || a.on("NVW") || a.on("NVH") || a.on("NVN") || a.on("NVM") || a.on("NVB") {
 		proofs = a.proofs(soup, h)
 	}
 	// ---- VCE: vote to the target as leader carrying the empty-hash proof forged from votes of an earlier view
@@ -413,7 +414,7 @@ func (a *Adv) build(soup []Sent, t *LState) []int {
 		}
 	}
 	// ---- NEW_VIEW in views the adversary leads
-	if a.on("NV") || a.on("NVF") || a.on("NVW") || a.on("NVH") || a.on("NVN") || a.on("NVM") || a.on("NVE") {
+	if a.on("NV") || a.on("NVF") || a.on("NVW") || a.on("NVH") || a.on("NVN") || a.on("NVM") || a.on("NVE") || a.on("NVB") {
 		for v := uint64(1); v <= e.Cfg.MaxView; v++ {
 			if v < t.View {
 				continue
@@ -505,7 +506,18 @@ func (a *Adv) newViews(soup []Sent, t *LState, b primitives.MemberId, v uint64, 
 					x := a.blockFor(h, e.Cfg.Alphabet[0])
 					mk(votes, lb, kit.HashOf(x), "NVH")
 				}
+				if a.on("NVB") && maskv == 1<<uint(n)-1 { // the certified hash, every signature genuine, another block body attached (all known votes)
+					for _, tag := range append(append([]string{}, e.Cfg.Alphabet...), "SUBST") {
+						if x := a.blockFor(h, tag); tag != best.tag {
+							mk(votes, x, kit.HashOf(lb), "NVB")
+						}
+					}
+				}
 			} else {
+				if a.on("NVB") && maskv == 1<<uint(n)-1 {
+					x, y := a.blockFor(h, e.Cfg.Alphabet[0]), a.blockFor(h, "SUBST")
+					mk(votes, y, kit.HashOf(x), "NVB")
+				}
 				if a.on("NVN") { // a proposal without its block (NVN)
 					x := a.blockFor(h, e.Cfg.Alphabet[0])
 					vcms := make([]*interfaces.ViewChangeMessage, len(votes))
